@@ -11,6 +11,12 @@ use serde_json::{json, Map, Value};
 
 pub const VERIF_DIR: &str = "/verif";
 
+/// where evidence/ and replays/ go: /verif, or $XSMON_OUT for background sweeps that must not
+/// touch the committed evidence
+pub fn out_dir() -> String {
+    std::env::var("XSMON_OUT").unwrap_or_else(|_| VERIF_DIR.to_string())
+}
+
 #[derive(Clone, Debug)]
 pub struct Violation {
     pub signature: String,
@@ -136,7 +142,7 @@ impl Report {
         let mut replay_paths = vec![];
         if !unlisted.is_empty() {
             exit = 1;
-            let dir = format!("{}/replays/{}", VERIF_DIR, self.property);
+            let dir = format!("{}/replays/{}", out_dir(), self.property);
             let _ = std::fs::create_dir_all(&dir);
             let mut printed = BTreeSet::new();
             for (i, v) in unlisted.iter().enumerate() {
@@ -220,7 +226,7 @@ impl Report {
             "violations": unlisted.len(),
             "verdict": match exit { 0 => "held-on-observed", 1 => "violated", _ => "inconclusive" },
         });
-        let dir = format!("{}/evidence", VERIF_DIR);
+        let dir = format!("{}/evidence", out_dir());
         let _ = std::fs::create_dir_all(&dir);
         let path = format!("{}/{}.json", dir, self.property);
         if let Err(e) = std::fs::write(&path, serde_json::to_vec_pretty(&ev).unwrap()) {
